@@ -229,6 +229,10 @@ Definition skip_report_of (p s : bytes) : bytes := skip_report (drop (length p +
 Definition verdict (msg : string) (p : bytes) : arg := AB (bs msg ++ p).
 Arguments verdict msg%string p.
 
+(* a path of printable ASCII without a backslash is printed as it is (nothing in it needs escaping) *)
+Definition plain_path (p : bytes) : bool :=
+  forallb (fun b => (32 <=? b) && (b <=? 126) && negb (b =? 92)) p.
+
 Fixpoint consume (o : list arg) (items : list item) (rest : bytes) : arg :=
   match items with
   | [] =>
@@ -237,6 +241,8 @@ Fixpoint consume (o : list arg) (items : list item) (rest : bytes) : arg :=
   | IFile p d :: tl =>
       match single_of o p with
       | Some s =>
+          if plain_path p && negb (prefix_of (p ++ [58; 32]) s)
+          then verdict "the report of a file does not begin with the path the file was given as: " p else
           match strip_prefix s rest with
           | Some rest' => consume o tl rest'
           | None =>
